@@ -203,9 +203,12 @@ func (fs *Filespace) Writer(destPath string) (writer filesystem.Writer, err erro
 		if file, ok = node.(*File); !ok {
 			return nil, goaterr.Errorf("Node %s must be a file", destPath)
 		}
-		file.time = time.Now()
 	}
-	return NewFileHandler(file), nil
+	handler := NewFileHandler(file)
+	// a writer replaces the old content (the handler holds the data lock)
+	file.time = time.Now()
+	file.data = []byte{}
+	return handler, nil
 }
 
 // Reader return a file node reader
